@@ -327,7 +327,9 @@ def run_impl(case):
                 return conv(r[1])
             if s[0] == "one":
                 return one(s[1])
-            return tuple(one(r) for r in s[1])
+            # both sequence types, so that an empty result is not always the PRUNE singleton ()
+            ctor = list if (len(s) > 3 and s[3] == "list") or (len(s) <= 3 and f % 2 == 1) else tuple
+            return ctor(one(r) for r in s[1])
         elaborate_frame.register(codes[f], hook)
 
     fid = {id(fr): i for i, fr in enumerate(frames)}
